@@ -672,7 +672,7 @@ def search(run, rng, quick):
     distinct = set()
     evals = 0
     kinds = ["eph", "spin-u1", "qc", "spin", "eph-2qn", "eph", "qc", "spin-u1"]
-    nchain = 60 if quick else 700
+    nchain = 160 if quick else 1200
     for it in range(nchain):
         key = run_chain_case(run, rng, kinds[it % len(kinds)])
         evals += 1
@@ -697,7 +697,7 @@ def search(run, rng, quick):
             distinct.add(key)
     davidson_probe(run)
     evals += 1
-    ntree = 20 if quick else 250
+    ntree = 50 if quick else 400
     tkinds = ["spin-u1", "eph", "spin", "qc", "eph-2qn"]
     for it in range(ntree):
         key = run_tree_case(run, rng, tkinds[it % len(tkinds)])
